@@ -51,6 +51,10 @@ def cases(tier, seed):
                    'nobias': (i // 7) % 4 == 0,
                    # drive some pre-activations beyond the PACT clip (saturation of the requantiser)
                    'saturate': (i // 2) % 3 == 0,
+                   # ... upwards, downwards (large negative biases only) or both ways
+                   'sat_sign': ['pos', 'neg', 'both', 'negb'][(i // 6) % 4],
+                   # fully convolutional network: the final (not re-quantised) layer is a Conv2d
+                   'conv_head': (i // 5) % 4 == 1,
                    # weights change after the last forward (fine-tune step / checkpoint load) and
                    # integerize_arch is called without a new forward
                    'stale': (i // 4) % 3 == 1})
@@ -61,7 +65,7 @@ def worker_setup(ctx):
     pass
 
 
-def gen_program(rng, dil=None, nobias=False):
+def gen_program(rng, dil=None, nobias=False, conv_head=False):
     b = pitgen.Builder(rng, '2d', {'max_c': 6})
     c0 = rng.randint(1, 3)
     H, W = rng.randint(6, 9), rng.randint(6, 9)
@@ -104,6 +108,14 @@ def gen_program(rng, dil=None, nobias=False):
         t = b.act(t, rng.choice(['relu_mod', 'relu_f', 'relu_t']))
         if rng.random() < 0.3 and min(b.shapes[t][1:]) >= 4:
             t = b.pool(t, 'max')
+    if conv_head:
+        # the network ends with a convolution (its output is the logits map)
+        t = b.conv(t, k=rng.choice([1, 1, 3]), d=1, s=1, pad=rng.choice([0, 1]), bias=bias())
+        if t is None:
+            raise ValueError('no room for a final convolution')
+        b.features.add('conv-head')
+        return {'family': '2d', 'inputs': [[c0, H, W]], 'ops': b.ops, 'out': t, 'excluded': [],
+                'features': sorted(b.features) + ([dil] if dil else []), 'traits': []}
     t = b.flat(t)
     if rng.random() < 0.5:
         t = b.lin(t, fout=rng.randint(2, 8), bias=bias())
@@ -130,7 +142,7 @@ def run_case(case, ctx):
     rng = random.Random(case['prog_seed'])
     for _ in range(30):
         try:
-            prog = gen_program(rng, case['dil'], case['nobias'])
+            prog = gen_program(rng, case['dil'], case['nobias'], case.get('conv_head', False))
             m0 = pitgen.build(prog, 0)
             with torch.no_grad():
                 m0(*pitgen.example_inputs(prog, 1, 0))
@@ -162,10 +174,23 @@ def run_case(case, ctx):
                 if isinstance(L, (MPSConv2d, MPSLinear)):
                     k = torch.rand(L.weight.shape[0], generator=g) < 0.4
                     if L.bias is not None:
-                        L.bias[k] += 10.0
+                        sgn = case.get('sat_sign', 'pos')
+                        if sgn == 'pos':
+                            L.bias[k] += 10.0
+                        elif sgn == 'neg':
+                            L.bias[k] -= 8.0 + 20.0 * torch.rand(int(k.sum()), generator=g)
+                        else:
+                            L.bias[k] += torch.where(torch.rand(int(k.sum()), generator=g) < 0.5,
+                                                     10.0, -12.0)
+                    if case.get('sat_sign') == 'negb':
+                        # biases just beyond -clip only, weights untouched (the scaled bias is then
+                        # the largest stored quantity of the layer)
+                        if L.bias is not None:
+                            L.bias.copy_(-(6.5 + 4.0 * torch.rand(L.bias.shape, generator=g)))
+                        continue
                     shape = [-1] + [1] * (L.weight.dim() - 1)
                     L.weight.mul_(torch.where(k, 6.0, 1.0).reshape(shape))
-        ctx.cls('saturate')
+        ctx.cls('saturate-' + case.get('sat_sign', 'pos'))
     mps.eval()
     if prec == 'mixed':
         mpslib.assign_coefficients(mps, rng)
@@ -202,8 +227,15 @@ def run_case(case, ctx):
           'a_prec': a_prec, 'features': prog['features'],
           'layers_without_bias': [k for k, v in has_bias.items() if not v],
           'dilated_axis': case['dil'],
+          'final_layer': prog['ops'][-1].get('name'), 'final_layer_kind': prog['ops'][-1]['op'],
+          'final_layer_has_bias': bool(prog['ops'][-1].get('bias')),
           'in_out_precisions': {k: (v.get('in_precision'), v.get('out_precision'))
                                 for k, v in summ.items() if 'in_precision' in v}}
+    if any(v[0] is not None and v[0] < 0 for v in d0['in_out_precisions'].values()):
+        # MPS left a layer without an input quantizer (seen on 1-channel fully convolutional chains):
+        # the integer back-ends have no declared input range to check against
+        ctx.skip('layer without input quantizer (in_precision -1)')
+        return
     try:
         I = integerize_arch(copy.deepcopy(E), backend, backend_kwargs=kwargs)
         I.eval()
